@@ -341,7 +341,8 @@ def run(prop, tier="quick", seed=0, replay=None, only=None):
         for u in undecided:
             print("UNDECIDED", u)
         return 2
-    print(f"OK property={prop} obligations={len(by_name)} instances={len(all_obs)} discharged={proved} "
+    print(f"OK property={prop} obligations={ev['coverage']['obligations']} instances={len(all_obs)} "
+          f"discharged={ev['coverage']['discharged']} known_findings={len(known_hits)} "
           f"native_runs={sum(r['runs'] for r in nat.values())} wall={time.time() - t0:.1f}s")
     return 0
 
